@@ -66,7 +66,7 @@ func genC12(tier string, seed int64) []Case {
 	r := rng(seed, "C12")
 	n := 300
 	if tier == "thorough" {
-		n = 4000
+		n = 15000
 	}
 	prog := []string{"next", "resp", "next", "err", "next", "nextHold", "offer", "resp", "restoreEvt"}
 	for i := 0; i < n; i++ {
